@@ -25,6 +25,10 @@ extern "C" {
 
 #define CDS_WFS_END			((struct cds_wfs_head *) 0x1UL)
 #define CDS_WFS_ADAPT_ATTEMPTS		10	/* Retry if being set */
+#ifdef URCU_VERIF_CDS_WFS_ADAPT_ATTEMPTS
+#undef CDS_WFS_ADAPT_ATTEMPTS
+#define CDS_WFS_ADAPT_ATTEMPTS URCU_VERIF_CDS_WFS_ADAPT_ATTEMPTS
+#endif
 #define CDS_WFS_WAIT			10	/* Wait 10 ms if being set */
 
 /*
